@@ -12,8 +12,8 @@ import (
 // Scope is a generated variable scope with the names available per type.
 type Scope struct {
 	Vars  map[string]cty.Value
-	ByTy  map[string][]string // "num","str","bool","listnum","liststr","tuple","map","obj","listobj","null"
-	Flags map[string]string   // how a variable was abstracted: "unknown", "dyn", "marked", "marked-nested"
+	ByTy  map[string][]string  // "num","str","bool","listnum","liststr","tuple","map","obj","listobj","null"
+	Flags map[string]string    // how a variable was abstracted: "unknown", "dyn", "marked", "marked-nested"
 	Orig  map[string]cty.Value // the known, unmarked values before abstraction / marking
 }
 
@@ -399,6 +399,10 @@ func (g *TypedGen) Gen(ty string, depth int) *lib.Node {
 			}
 			if len(n.Kids) > 0 && r.Chance(1, 3) {
 				n.Kids[len(n.Kids)-1] = orElse(g.pickVar("liststr"), func() *lib.Node { return g.Gen("tuple", 0) })
+				if r.Chance(1, 5) {
+					// anything may be written before `...`; only lists, sets and tuples may be expanded
+					n.Kids[len(n.Kids)-1] = &lib.Node{K: "var", S: r.Pick([]string{"m1", "o1", "s1", "n1", "nul", "l1", "t1", "ls"})}
+				}
 				n.Flag = true
 			}
 			return n
